@@ -70,6 +70,8 @@ class IocGen:
             if manual_tags or tagdefault != "AUTOMATIC":
                 t = _retag_for(t)       # components were generated for AUTOMATIC TAGS: give them explicit context tags
                 g.hoisted = [(hn, _retag_for(ht)) for hn, ht in g.hoisted]
+            t = _tame(t)
+            g.hoisted = [(hn, _tame(ht)) for hn, ht in g.hoisted]
             for hn, ht in g.hoisted: g.env_types[hn] = ht
             types.extend(g.hoisted)
             rn = f"Row{i + 1}"
@@ -128,6 +130,15 @@ class IocGen:
                         "rows": rows, "items": items, "frame": frame}} if shape != "one_row_type_first" else \
                {"name": name, "tagdefault": tagdefault, "types": types,
                 "ioc": {"shape": shape, "finding": "F107", "cls_order": "type", "idkind": idkind, "rows": rows, "items": items, "frame": frame}}
+
+def _tame(t):
+    """a NAMED type whose only constraint is (0..MAX) / (MIN..MAX) / SIZE(0..MAX) makes asn_check_constraints recurse
+    forever on the unchanged tree (the emitted <T>_constraint calls itself; a C08 defect, not this property's): drop it"""
+    t = dict(t)
+    for key in ("cons", "size"):
+        c = t.get(key)
+        if c and c["hi"] is None and c["lo"] in (None, 0): t[key] = None
+    return t
 
 def _retag_for(t):
     """components generated for AUTOMATIC TAGS carry no tags: number them [0],[1],.. so the type is valid under any default"""
